@@ -12,6 +12,10 @@ type Font struct {
 
 	// ToUnicode CMap for character code to Unicode mapping
 	ToUnicodeCMap *CMap
+
+	// differences holds the code -> Unicode overrides of an /Encoding dictionary's
+	// /Differences array (applied on top of the base encoding)
+	differences map[byte]rune
 }
 
 // NewFont creates a new font
@@ -88,6 +92,9 @@ func (f *Font) DecodeString(data []byte) string {
 	// Priority 3: Use font's Encoding property
 	if f.Encoding != "" {
 		enc := GetEncoding(f.Encoding)
+		if len(f.differences) > 0 {
+			enc = NewCustomEncoding(enc, f.differences)
+		}
 		decoded = enc.DecodeString(data)
 		return NormalizeUnicode(decoded)
 	}
@@ -103,6 +110,19 @@ func (f *Font) DecodeString(data []byte) string {
 		decoded = string(runes)
 	}
 	return NormalizeUnicode(decoded)
+}
+
+// setDifference records one override of the base encoding.
+func (f *Font) setDifference(code int, glyphName string) {
+	if code < 0 || code > 255 {
+		return
+	}
+	if r, ok := glyphNameToUnicode[glyphName]; ok {
+		if f.differences == nil {
+			f.differences = make(map[byte]rune)
+		}
+		f.differences[byte(code)] = r
+	}
 }
 
 // IsVertical returns true if this font uses vertical writing mode
